@@ -4,6 +4,9 @@ Gen/GenChunk.vos Gen/GenChunk.vok Gen/GenChunk.required_vos: Gen/GenChunk.v Lib/
 Gen/GenProto.vo Gen/GenProto.glob Gen/GenProto.v.beautified Gen/GenProto.required_vo: Gen/GenProto.v Lib/NumOps.vo
 Gen/GenProto.vio: Gen/GenProto.v Lib/NumOps.vio
 Gen/GenProto.vos Gen/GenProto.vok Gen/GenProto.required_vos: Gen/GenProto.v Lib/NumOps.vos
+Gen/GenStruct.vo Gen/GenStruct.glob Gen/GenStruct.v.beautified Gen/GenStruct.required_vo: Gen/GenStruct.v Lib/NumOps.vo
+Gen/GenStruct.vio: Gen/GenStruct.v Lib/NumOps.vio
+Gen/GenStruct.vos Gen/GenStruct.vok Gen/GenStruct.required_vos: Gen/GenStruct.v Lib/NumOps.vos
 Lib/B64.vo Lib/B64.glob Lib/B64.v.beautified Lib/B64.required_vo: Lib/B64.v Lib/NumOps.vo
 Lib/B64.vio: Lib/B64.v Lib/NumOps.vio
 Lib/B64.vos Lib/B64.vok Lib/B64.required_vos: Lib/B64.v Lib/NumOps.vos
@@ -22,6 +25,9 @@ Model/Conf.vos Model/Conf.vok Model/Conf.required_vos: Model/Conf.v Lib/NumOps.v
 Model/Core.vo Model/Core.glob Model/Core.v.beautified Model/Core.required_vo: Model/Core.v Lib/NumOps.vo Gen/GenProto.vo
 Model/Core.vio: Model/Core.v Lib/NumOps.vio Gen/GenProto.vio
 Model/Core.vos Model/Core.vok Model/Core.required_vos: Model/Core.v Lib/NumOps.vos Gen/GenProto.vos
+Model/OrderHist.vo Model/OrderHist.glob Model/OrderHist.v.beautified Model/OrderHist.required_vo: Model/OrderHist.v Gen/GenStruct.vo
+Model/OrderHist.vio: Model/OrderHist.v Gen/GenStruct.vio
+Model/OrderHist.vos Model/OrderHist.vok Model/OrderHist.required_vos: Model/OrderHist.v Gen/GenStruct.vos
 Proofs/ChunkPartition.vo Proofs/ChunkPartition.glob Proofs/ChunkPartition.v.beautified Proofs/ChunkPartition.required_vo: Proofs/ChunkPartition.v Lib/NumOps.vo Gen/GenChunk.vo Model/Chunk.vo Spec/ChunkSpec.vo
 Proofs/ChunkPartition.vio: Proofs/ChunkPartition.v Lib/NumOps.vio Gen/GenChunk.vio Model/Chunk.vio Spec/ChunkSpec.vio
 Proofs/ChunkPartition.vos Proofs/ChunkPartition.vok Proofs/ChunkPartition.required_vos: Proofs/ChunkPartition.v Lib/NumOps.vos Gen/GenChunk.vos Model/Chunk.vos Spec/ChunkSpec.vos
@@ -31,9 +37,18 @@ Proofs/ChunkSizes.vos Proofs/ChunkSizes.vok Proofs/ChunkSizes.required_vos: Proo
 Proofs/CoreCons.vo Proofs/CoreCons.glob Proofs/CoreCons.v.beautified Proofs/CoreCons.required_vo: Proofs/CoreCons.v Lib/NumOps.vo Gen/GenProto.vo Model/Core.vo Spec/ProtoSpec.vo
 Proofs/CoreCons.vio: Proofs/CoreCons.v Lib/NumOps.vio Gen/GenProto.vio Model/Core.vio Spec/ProtoSpec.vio
 Proofs/CoreCons.vos Proofs/CoreCons.vok Proofs/CoreCons.required_vos: Proofs/CoreCons.v Lib/NumOps.vos Gen/GenProto.vos Model/Core.vos Spec/ProtoSpec.vos
+Proofs/CoreLemmas.vo Proofs/CoreLemmas.glob Proofs/CoreLemmas.v.beautified Proofs/CoreLemmas.required_vo: Proofs/CoreLemmas.v Lib/NumOps.vo Gen/GenProto.vo Model/Core.vo Spec/ProtoSpec.vo
+Proofs/CoreLemmas.vio: Proofs/CoreLemmas.v Lib/NumOps.vio Gen/GenProto.vio Model/Core.vio Spec/ProtoSpec.vio
+Proofs/CoreLemmas.vos Proofs/CoreLemmas.vok Proofs/CoreLemmas.required_vos: Proofs/CoreLemmas.v Lib/NumOps.vos Gen/GenProto.vos Model/Core.vos Spec/ProtoSpec.vos
+Proofs/CoreOrder.vo Proofs/CoreOrder.glob Proofs/CoreOrder.v.beautified Proofs/CoreOrder.required_vo: Proofs/CoreOrder.v Lib/NumOps.vo Gen/GenProto.vo Model/Core.vo Spec/ProtoSpec.vo Proofs/CoreLemmas.vo Proofs/CoreCons.vo
+Proofs/CoreOrder.vio: Proofs/CoreOrder.v Lib/NumOps.vio Gen/GenProto.vio Model/Core.vio Spec/ProtoSpec.vio Proofs/CoreLemmas.vio Proofs/CoreCons.vio
+Proofs/CoreOrder.vos Proofs/CoreOrder.vok Proofs/CoreOrder.required_vos: Proofs/CoreOrder.v Lib/NumOps.vos Gen/GenProto.vos Model/Core.vos Spec/ProtoSpec.vos Proofs/CoreLemmas.vos Proofs/CoreCons.vos
 Proofs/CoreResult.vo Proofs/CoreResult.glob Proofs/CoreResult.v.beautified Proofs/CoreResult.required_vo: Proofs/CoreResult.v Lib/NumOps.vo Gen/GenProto.vo Model/Core.vo Spec/ProtoSpec.vo Proofs/CoreCons.vo
 Proofs/CoreResult.vio: Proofs/CoreResult.v Lib/NumOps.vio Gen/GenProto.vio Model/Core.vio Spec/ProtoSpec.vio Proofs/CoreCons.vio
 Proofs/CoreResult.vos Proofs/CoreResult.vok Proofs/CoreResult.required_vos: Proofs/CoreResult.v Lib/NumOps.vos Gen/GenProto.vos Model/Core.vos Spec/ProtoSpec.vos Proofs/CoreCons.vos
+Proofs/OrderHistProofs.vo Proofs/OrderHistProofs.glob Proofs/OrderHistProofs.v.beautified Proofs/OrderHistProofs.required_vo: Proofs/OrderHistProofs.v Gen/GenStruct.vo Model/OrderHist.vo
+Proofs/OrderHistProofs.vio: Proofs/OrderHistProofs.v Gen/GenStruct.vio Model/OrderHist.vio
+Proofs/OrderHistProofs.vos Proofs/OrderHistProofs.vok Proofs/OrderHistProofs.required_vos: Proofs/OrderHistProofs.v Gen/GenStruct.vos Model/OrderHist.vos
 Proofs/SortRecovers.vo Proofs/SortRecovers.glob Proofs/SortRecovers.v.beautified Proofs/SortRecovers.required_vo: Proofs/SortRecovers.v 
 Proofs/SortRecovers.vio: Proofs/SortRecovers.v 
 Proofs/SortRecovers.vos Proofs/SortRecovers.vok Proofs/SortRecovers.required_vos: Proofs/SortRecovers.v 
@@ -46,6 +61,9 @@ Props/C02.vos Props/C02.vok Props/C02.required_vos: Props/C02.v Lib/NumOps.vos G
 Props/C14.vo Props/C14.glob Props/C14.v.beautified Props/C14.required_vo: Props/C14.v Lib/NumOps.vo Gen/GenChunk.vo Model/Chunk.vo Spec/ChunkSpec.vo Proofs/ChunkPartition.vo Proofs/ChunkSizes.vo
 Props/C14.vio: Props/C14.v Lib/NumOps.vio Gen/GenChunk.vio Model/Chunk.vio Spec/ChunkSpec.vio Proofs/ChunkPartition.vio Proofs/ChunkSizes.vio
 Props/C14.vos Props/C14.vok Props/C14.required_vos: Props/C14.v Lib/NumOps.vos Gen/GenChunk.vos Model/Chunk.vos Spec/ChunkSpec.vos Proofs/ChunkPartition.vos Proofs/ChunkSizes.vos
+Props/C16.vo Props/C16.glob Props/C16.v.beautified Props/C16.required_vo: Props/C16.v Lib/NumOps.vo Gen/GenProto.vo Gen/GenStruct.vo Model/Core.vo Spec/ProtoSpec.vo Proofs/CoreOrder.vo Model/OrderHist.vo Proofs/OrderHistProofs.vo
+Props/C16.vio: Props/C16.v Lib/NumOps.vio Gen/GenProto.vio Gen/GenStruct.vio Model/Core.vio Spec/ProtoSpec.vio Proofs/CoreOrder.vio Model/OrderHist.vio Proofs/OrderHistProofs.vio
+Props/C16.vos Props/C16.vok Props/C16.required_vos: Props/C16.v Lib/NumOps.vos Gen/GenProto.vos Gen/GenStruct.vos Model/Core.vos Spec/ProtoSpec.vos Proofs/CoreOrder.vos Model/OrderHist.vos Proofs/OrderHistProofs.vos
 Spec/ChunkSpec.vo Spec/ChunkSpec.glob Spec/ChunkSpec.v.beautified Spec/ChunkSpec.required_vo: Spec/ChunkSpec.v Lib/NumOps.vo Gen/GenChunk.vo Model/Chunk.vo
 Spec/ChunkSpec.vio: Spec/ChunkSpec.v Lib/NumOps.vio Gen/GenChunk.vio Model/Chunk.vio
 Spec/ChunkSpec.vos Spec/ChunkSpec.vok Spec/ChunkSpec.required_vos: Spec/ChunkSpec.v Lib/NumOps.vos Gen/GenChunk.vos Model/Chunk.vos
